@@ -7,7 +7,8 @@ Campaign (implementation in worker processes, model and verdicts inside Coq, Cor
                     iterables, from dense arrays (every target format), from scipy.sparse matrices
                     (coo/csr/csc, canonical or not), compared with the model exactly and with the Spec
                     (sum of the values given for an index);
-  3. chains       : random conversion histories through COO, GCXS (every compressed-axes subset and
+  3. chains       : (incl. operands whose coordinates are held in int8/uint8/int16/uint16 with compressed
+                    extents straddling the dtype's maximum) random conversion histories through COO, GCXS (every compressed-axes subset and
                     the default), CSR, CSC, DOK, scipy.sparse, dense — after EVERY hop the raw
                     representation is compared with the model's, sarr_wfb is evaluated, and the dense
                     meaning / shape / fill / dtype are compared with the original;
@@ -189,18 +190,30 @@ def _apply_hop(cur, h, fv):
 
 
 def impl_chain(case):
-    x = _build(case["spec"])
+    import numpy as np
+    spec = case["spec"]
+    x = vlib.build_array(dict(spec, format="coo"), dtype=spec["dtype"], idx_dtype=case.get("idx_dtype"))
     fv = x.fill_value
     outs = []
     cur = x
-    for h in case["hops"]:
+    expected = vlib.spec_dense(spec, dtype=spec["dtype"]) if case.get("raw") else None
+    dense_bad = []
+    for hno, h in enumerate(case["hops"]):
         try:
             cur = _apply_hop(cur, h, fv)
-            outs.append(vlib.plain(cur))
+            p = vlib.plain(cur)
+            if expected is not None:
+                # large arrays: the dense meaning is compared here with NumPy (inside Coq only the raw arrays are)
+                d = cur if isinstance(cur, np.ndarray) else cur.todense()
+                if d.shape != expected.shape or not np.array_equal(d, expected):
+                    dense_bad.append({"hop": hno + 1, "differing_elements": int((d != expected).sum()) if d.shape == expected.shape else -1})
+                if p.get("k") == "dense" and d.size > 4000:
+                    p = {"k": "other", "repr": "large dense array (compared with NumPy only)"}
+            outs.append(p)
         except Exception as ex:  # noqa: BLE001
             outs.append(vlib.plain(ex))
             break
-    return {"outs": outs, "dtype": str(x.dtype)}
+    return {"outs": outs, "dtype": str(x.dtype), "coords_dtype": str(x.coords.dtype), "dense_bad": dense_bad}
 
 
 def impl_make(case):
@@ -216,6 +229,8 @@ def impl_make(case):
             co = np.array(case["coords"], dtype=np.intp).reshape(n, -1).T if n else np.zeros((nd, 0), dtype=np.intp)
             if n and nd == 0:
                 co = np.zeros((0, n), dtype=np.intp)
+            if case.get("idx_dtype"):
+                co = co.astype(case["idx_dtype"])
             r = sparse.COO(co, np.array(case["data"], dtype=dt), shape=sh, fill_value=dt.type(case["fill"]),
                            sorted=case["sorted"], has_duplicates=case["hasdup"], prune=case["prune"])
         elif k == "iter":
@@ -549,6 +564,69 @@ def gen_chain_cases(rng, tier, n_cases):
     return cases
 
 
+NARROW = {
+    # coordinate dtype -> shapes whose compressed extents (products of axes) straddle the dtype's maximum
+    # while every single extent and nnz fit
+    "int8": [[4, 12, 11], [3, 8, 16], [2, 9, 14], [4, 20, 20], [12, 11, 3], [2, 3, 5, 9], [3, 2, 127], [2, 127], [127, 2]],
+    "uint8": [[4, 20, 20], [2, 16, 16], [2, 15, 17], [3, 2, 127], [16, 16, 2], [2, 4, 8, 9], [3, 255], [2, 2, 2, 8, 8]],
+    "int16": [[2, 181, 182], [2, 181, 181], [3, 200, 200], [2, 2, 128, 128]],
+    "uint16": [[2, 256, 256], [2, 255, 257], [2, 300, 300], [2, 2, 2, 130, 130]],
+}
+NARROW_MAX = {"int8": 127, "uint8": 255, "int16": 32767, "uint16": 65535}
+
+
+def gen_narrow_cases(rng, tier):
+    """chains starting from a COO whose coordinates are held in a narrow integer dtype: the converters must
+    widen the index dtype whenever a compressed extent or nnz no longer fits (raw arrays against the model,
+    dense meaning against NumPy)"""
+    cases = []
+    reps = 3 if tier == "quick" else 12
+    for idt, shapes in NARROW.items():
+        for sh in shapes:
+            nd = len(sh)
+            subs = [ax for ax in all_axes_subsets(nd) if math.prod(sh[a] for a in ax) <= 1500]
+            size = math.prod(sh)
+            for _ in range(reps):
+                dtype = rng.choice(["int64", "float64"])
+                nnz = rng.randint(1, min(40, NARROW_MAX[idt] - 1, size))
+                pos = set(rng.sample(range(size), nnz - 1)) | {size - 1}      # the last element: largest linear index
+                if rng.random() < 0.5:
+                    pos |= set(range(max(0, size - 4), size))
+                coords = []
+                for q in sorted(pos):
+                    ix = []
+                    for d in reversed(sh):
+                        ix.append(q % d)
+                        q //= d
+                    coords.append(ix[::-1])
+                vals = DTYPES[dtype]["values"]
+                spec = {"shape": sh, "coords": coords, "data": [rng.choice(vals) for _ in coords],
+                        "fill": rng.choice([0, 0, 3]) if dtype == "int64" else rng.choice([0.0, 2.0]),
+                        "format": "coo", "caxes": None, "dtype": dtype}
+                hops = []
+                n_h = rng.randint(1, 4)
+                for j in range(n_h):
+                    kinds = ["gcxs", "gcxs_axes", "gcxs_axes"] if j == 0 else ["coo", "dok", "gcxs", "gcxs_axes", "gcxs_axes"]
+                    if nd == 2:
+                        kinds += ["csr", "csc"]
+                    if size <= 2000 and j > 0:
+                        kinds.append("dense")
+                    k = rng.choice(kinds)
+                    via = rng.randint(0, 3)
+                    if k == "gcxs_axes" and subs:
+                        hops.append({"fmt": "gcxs", "axes": list(rng.choice(subs)), "via": via})
+                    elif k in ("gcxs", "gcxs_axes"):
+                        # default axes (argmin of the shape) only when its row count is small enough to print
+                        if sh[default_axes(sh)[0]] <= 1500:
+                            hops.append({"fmt": "gcxs", "axes": None, "via": via})
+                        else:
+                            hops.append({"fmt": "coo", "via": via})
+                    else:
+                        hops.append({"fmt": k, "via": via})
+                cases.append({"spec": spec, "hops": hops, "idx_dtype": idt, "raw": True})
+    return cases
+
+
 def gen_make_cases(rng, tier, n):
     cases = []
     # directed: the open findings of the direct DOK constructors (0-d input; a stored -0.0), every API path
@@ -586,6 +664,8 @@ def gen_make_cases(rng, tier, n):
                 srt = rng.random() < 0.7
             c = {"k": "coords", "dtype": dtype, "shape": sh, "coords": coords, "data": data, "fill": fill,
                  "sorted": srt, "hasdup": hd, "prune": rng.random() < 0.4}
+            if rng.random() < 0.3:
+                c["idx_dtype"] = rng.choice(["int8", "uint8", "int16", "uint16"])   # narrow coordinate dtype
             if mode == 1 and rng.random() < 0.25 and nd >= 1:
                 # malformed stream: out-of-range / negative coordinate, or a length mismatch
                 if rng.random() < 0.6:
@@ -793,6 +873,7 @@ def campaign(build, tier, seed, report, budget=1):
     mc = gen_make_cases(rng, tier, n_make)
     n_chain = (1000 if tier == "quick" else 9000) * budget
     cc = gen_chain_cases(rng, tier, n_chain)
+    cc += gen_narrow_cases(rng, tier)
     # the witness of Props.C05.conversion_chain_den_refuted, replayed on the implementation (always case 0)
     cc.insert(0, {"spec": {"shape": [], "coords": [[]], "data": [5], "fill": 0, "format": "coo", "caxes": None, "dtype": "int64"},
                   "hops": [{"fmt": "dok", "via": 0}, {"fmt": "coo", "via": 0}]})
@@ -927,10 +1008,18 @@ def campaign(build, tier, seed, report, budget=1):
                 viol.append(dict(property="C05", op="chain:dtype", kind="value", clause=None, case=c, impl=o, hop=hno + 1,
                                  what=f"dtype {r['dtype']} became {o.get('dtype')}", replay_py=replay_line("impl_chain", c)))
                 break
+        if c.get("idx_dtype"):
+            tag("chain/coords-" + c["idx_dtype"])
+        if r.get("dense_bad"):
+            b = r["dense_bad"][0]
+            viol.append(dict(property="C05", op="chain", kind="value", clause=None, code=2, hop=b["hop"], case=c, impl=r,
+                             what=f"{b['differing_elements']} elements differ from the original after hop {b['hop']} "
+                                  f"(coordinates held as {r.get('coords_dtype')}; NumPy comparison of todense())",
+                             replay_py=replay_line("impl_chain", c)))
         lit = "(%s, %s, %s, %s)" % (
             lit_coo(spec["shape"], spec["coords"], [np.dtype(spec["dtype"]).type(v) for v in spec["data"]], np.dtype(spec["dtype"]).type(spec["fill"])),
             vlist(hops, lambda h: vpair(lit_fmt(h), vbool(bool(h.get("scipy"))))),
-            vlist(outs, vlib.sarr_lit), vlist(spec_flat_tokens(spec)))
+            vlist(outs, vlib.sarr_lit), "None" if c.get("raw") else "(Some %s)" % vlist(spec_flat_tokens(spec)))
         clits.append(lit)
         cidx.append(i)
     CK = {1: ("representation", None, "raw representation differs from the model's"),
@@ -944,6 +1033,8 @@ def campaign(build, tier, seed, report, budget=1):
         i = cidx[j]
         hop, code = divmod(v, 10)
         kind, clause, what = CK.get(code, ("value", None, "?"))
+        if code == 1 and cres[i].get("dense_bad"):
+            continue        # already reported above as a value violation (the raw arrays differ because elements moved)
         fl = cc[i]["spec"]["fill"]
         if code == 6 and cc[i]["hops"][hop - 1].get("scipy") and isinstance(fl, float) and fl == 0 and math.copysign(1, fl) < 0:
             clause, what = "to_scipy_negative_zero_fill", "to_scipy_sparse accepts the fill value -0.0; unstored elements come back as +0.0"
